@@ -1,14 +1,14 @@
 """C05 — Every dial attempt ends in exactly one outcome and never wedges the peer
 (model: Model/Manager/*.lean, adapter: src/verif/c05.rs, shared with C06)."""
 from . import mgr_common as M
-from .mgr_common import parse_obs, Ghost, stats, model_lines, mutate_case, last_peer  # noqa: F401 (engine hooks)
+from .mgr_common import parse_obs, Ghost, stats, model_lines, mutate_case, last_peer, base_op  # noqa: F401 (engine hooks)
 
 ID = "C05"
 AREA = M.AREA
 LEAN_PROPS = "Litep2pVerif.Props.C05"
 THEOREMS = ["no_dup_outcome", "dial_ledger", "quiescent_dialable", "addr_total", "dial_address_parses_for_tcp",
             "dial_address_peers_agree", "protocol_dial_ledger", "protocol_dial_joins",
-            "protocol_notified_despite_full_channel"]
+            "protocol_notified_despite_full_channel", "facade_reports_every_outcome"]
 MANIFEST = {
     "text": "Lean 4 theorems about an executable operational model of the connection manager with a ghost ledger of accepted "
             "dial attempts: no_dup_outcome, dial_ledger (outcome + inflight = 1 for every attempt in every reachable state), "
@@ -24,10 +24,18 @@ MANIFEST = {
             "number/order of protocols, every capacity and every interleaving; a failed queued DialAddress gets exactly one "
             "DialFailure{peer, [address]} per protocol and no processed request ends with a merely logged error (the former "
             "finding 'queued DialAddress failure is silent' is repaired by a fix: commit; the handle only queues addresses "
-            "ending in /p2p). Tie: seeded differential run "
+            "ending in /p2p). Facade level (Model/Manager/Facade.lean): Litep2p::dial / dial_address forward to the manager and "
+            "the match of Litep2p::next_event over every TransportEvent shape (facadeEvent; none = the `_ => {}` arm); "
+            "facade_reports_every_outcome: every attempt the facade accepted and the manager concluded has exactly one user "
+            "event (uoutcome + inflight = 1), it is ConnectionEstablished / DialFailure / ListDialFailures carrying exactly what "
+            "the manager reported — an OpenFailure with an EMPTY error list (TcpTransport's overall dial deadline) included — "
+            "no event the manager can return falls into the dropping arm, one user event per manager event. Tie: seeded differential run "
             "of the real TransportManager (scripted Transport, real protocol contexts with small channels, requests through "
-            "the real TransportManagerHandle, connections reported by the real ProtocolSet) against the model, plus an "
-            "outcome-ledger oracle per attempt and per protocol.",
+            "the real TransportManagerHandle, connections reported by the real ProtocolSet; in 30 % of the histories the manager sits inside a real Litep2p object, the dials go through "
+            "Litep2p::dial / dial_address and every operation polls Litep2p::next_event to quiescence, printing the "
+            "Litep2pEvents the user sees) against the model, plus an outcome-ledger oracle per attempt and per protocol, at the "
+            "facade level on the user events (failure reports carry no connection id: each concluded attempt is owed exactly "
+            "one report naming what the transport reported; never silence at quiescence, never a report nobody is owed).",
     "note": "Trusted: Lean kernel; axioms propext/Quot.sound/Classical.choice; the model and its sampled tie; the environment "
             "contract `allowed` (events only for outstanding obligations, accept succeeds, dial/open/negotiate return Ok — "
             "proved for dial via dial_address_parses_for_tcp, read off tcp/mod.rs for open/negotiate); TcpTransport's own "
@@ -43,12 +51,16 @@ RULE = ("closed-loop seeded histories (limit configs none/0/1/2/(3,2)/mixed; 2-3
         "multiaddress shapes for dial_address; in half of the histories 1-3 protocols with event channels of capacity 1-3 "
         "are installed, dial by peer id / address through the manager handle (limit configs under which queued dials fail), "
         "their channels are filled before and drained after outcomes are delivered (manager blocked inside next()), "
-        "application calls are tried while it is blocked; run on the real TransportManager and on the Lean model; non-trivial = at least "
+        "application calls are tried while it is blocked; open failures carry one error per address, a subset, or NO error "
+        "(overall dial deadline); 30 % of the histories run at the facade level (`facade`, fdial/fdialaddr = Litep2p::dial/"
+        "dial_address, observation = Litep2p::next_event polled to quiescence, `fnext` polls again); run on the real TransportManager and on the Lean model; non-trivial = at least "
         "one dial attempt started and concluded; distinct = distinct (ops, observations) transcripts by SHA-256")
 TRUSTED_BASE = ["Lean 4.33 kernel", "axioms: propext, Quot.sound, Classical.choice only",
                 "hand-written model Model/Manager/{PeerState,Limits,Dial}.lean tied to manager/{peer_state,limits,mod}.rs by this correspondence run",
                 "the environment contract `allowed` of Model/Manager/Dial.lean (what a Transport may report)",
-                "adapter /repo/src/verif/c05.rs (scripted Transport, next() polled to quiescence per op; a next() future that is "
+                "facade translation Model/Manager/Facade.lean tied to Litep2p::next_event (src/lib.rs) by the facade-level runs "
+                "(the Litep2p object is assembled field by field as Litep2p::new does, around the scripted transport)",
+                "adapter /repo/src/verif/c05.rs (scripted Transport, next() / next_event() polled to quiescence per op; a next() future that is "
                 "pending inside an arm is kept and resumed, recognised by a second poll that does not reach the transport), "
                 "harness, verif.py, checks/c05.py, checks/mgr_common.py",
                 "tokio mpsc semantics (bounded channel, a blocked send() is served before later try_send()s)",
@@ -65,7 +77,7 @@ KEEP_PREFIX = 1
 
 
 def gen_cases(rng, tier):
-    return M.gen_cases(rng, tier, share_addr=0.2, share_proto=0.5)
+    return M.gen_cases(rng, tier, share_addr=0.2, share_proto=0.5, share_facade=0.3)
 
 
 PROTO_CORPUS = [
@@ -88,8 +100,31 @@ PROTO_CORPUS = [
 ]
 
 
+FACADE_CORPUS = [
+    # every TransportEvent shape through Litep2p::next_event: open failure with 0 (overall dial deadline), 2 and 1
+    # errors, dial failure, connection established / closed, a limit-rejected dialed connection
+    ["limits none none", "facade", "addknown 1 ip4.11/tcp.1001/p2p.1,dns.1/tcp.3001/p2p.1", "fdial 1 as=c1",
+     "ev openfail c1", "fnext", "fdial 1 as=c2",
+     "ev openfail c2 errs=ip4.11/tcp.1001/p2p.1=t,dns.1/tcp.3001/p2p.1=a", "fdial 1 as=c5", "ev openfail c5 errs=dns.1/tcp.3001/p2p.1=t",
+     "fdialaddr ip4.12/tcp.1002/p2p.2 as=c3", "ev dialfail c3 ip4.12/tcp.1002/p2p.2 t",
+     "fdialaddr ip4.12/tcp.1002/p2p.2 as=c4", "ev established 2 c4 ip4.12/tcp.1002/p2p.2 dialer", "accepted c4 ok",
+     "ev closed 2 c4", "fnext"],
+    ["limits none 1", "facade", "fdialaddr ip4.11/tcp.1001/p2p.1 as=c1", "fdialaddr ip4.12/tcp.1002/p2p.2 as=c2",
+     "ev established 1 c1 ip4.11/tcp.1001/p2p.1 dialer", "ev established 2 c2 ip4.12/tcp.1002/p2p.2 dialer",
+     "accepted c1 ok", "ev pendingin c3", "ev established 1 c3 ip4.51/tcp.4000 listener", "fnext"],
+    # opened with partial errors, then the negotiation fails; an opening attempt superseded by an inbound connection
+    ["limits none none", "facade", "addknown 1 ip4.11/tcp.1001/p2p.1,ip4.301/tcp.2001/p2p.1", "fdial 1 as=c1",
+     "ev opened c1 ip4.301/tcp.2001/p2p.1 errs=ip4.11/tcp.1001/p2p.1=t", "ev dialfail c1 ip4.301/tcp.2001/p2p.1 n",
+     "fdial 1 as=c2", "ev established 1 c3 ip4.51/tcp.4000 listener", "accepted c3 ok", "ev closed 1 c3", "fdial 1 as=c4",
+     "ev openfail c4"],
+    # facade level with protocols: the manager is suspended inside Litep2p::next_event on a full channel
+    ["limits none none", "facade", "protocols 2 cap=1", "addknown 1 ip4.11/tcp.1001/p2p.1", "fdial 1 as=c1", "pfill 1",
+     "ev openfail c1", "pdrain 1", "pdrain 0", "pdrain 1", "fnext"],
+]
+
+
 def corpus():
-    return [list(c) for c in M.CORPUS] + [list(c) for c in PROTO_CORPUS]
+    return [list(c) for c in M.CORPUS] + [list(c) for c in PROTO_CORPUS] + [list(c) for c in FACADE_CORPUS]
 
 
 def nontrivial(case, out):
@@ -98,7 +133,7 @@ def nontrivial(case, out):
         ob = parse_obs(o)
         if ob:
             started |= any(c[0] in ("dial", "open") for c in ob["calls"])
-            concluded |= any(e["k"] in ("est", "dialfail", "openfail") for e in ob["events"])
+            concluded |= any(e["k"] in ("est", "dialfail", "openfail", "udialfail", "ulist") for e in ob["events"])
     return started and concluded
 
 
@@ -131,6 +166,8 @@ def oracle(case, out):
         return bad
     g = Ghost(t0[1], t0[2])
     pr = None
+    facade = False      # the node is polled through Litep2p::next_event: failure reports carry no connection id
+    due = []            # facade level: failure reports the user is owed (attempt concluded, nothing reported yet)
 
     def v(kind, msg, i):
         bad.append({"kind": kind, "msg": msg, "step": i, "op": case[i], "out": out[i] if i < len(out) else None})
@@ -139,18 +176,23 @@ def oracle(case, out):
         if i == 0 or i >= len(out):
             continue
         o = out[i]
-        t = op.split(" -> ")[0].split()
+        t = base_op(op.split(" -> ")[0]).split()
         if o == "skipped" or o == "bad-op":
             break
         if o == "busy":
             continue
+        if t[0] == "facade":
+            if o == "ok":
+                facade = True
+                continue
+            break
         if t[0] == "protocols":
             if o.startswith("ok") and len(t) == 3 and t[1].isdigit() and t[2].startswith("cap=") and t[2][4:].isdigit():
                 pr = Protocols(int(t[1]), int(t[2][4:]))
                 continue
             break
         if o.startswith("panic"):
-            if t[0] in ("dial", "dialaddr", "addknown", "pdial", "pdialaddr", "pfill", "pdrain"):
+            if t[0] in ("dial", "dialaddr", "addknown", "pdial", "pdialaddr", "pfill", "pdrain", "fnext"):
                 v("panic", f"{t[0]} panicked: {o}", i)
             elif g.contract and g.allowed(t):
                 v("panic", f"panic on an event the transport contract allows: {o}", i)
@@ -161,10 +203,13 @@ def oracle(case, out):
         prev = g.prev
         busy_before = {p: (g.owed_of(p), g.live_of(p)) for p in range(0, 8)}
         nled = len(g.ledger)
+        inflight_before = {a["conn"]: a["carrier"] in g.owed for a in g.ledger}
         g.update(i, op, obs)
         if not g.contract or g.clash:
             break          # the environment broke its contract: nothing more to say about this history
         suspended = obs["susp"] == "y"
+        if facade or any(e["k"] in ("udialfail", "ulist") for e in obs["events"]):
+            facade_reports(g, t, obs, inflight_before, due, i, v)
         # --- API answers
         if t[0] in ("dial", "dialaddr"):
             target = int(t[1]) if t[0] == "dial" else last_peer(t[1])
@@ -194,6 +239,8 @@ def oracle(case, out):
                 v("duplicate-outcome", f"attempt {a['conn']} of peer {a['peer']} got {n} reports {a['reports']}", i)
             elif n + inflight != 1 and not g.acceptfail and not suspended:
                 what = "no report and nothing in flight (silence)" if n == 0 else "a report while still in flight"
+                if n == 0 and a.get("missing"):
+                    what += f": Litep2p::next_event never returned the {a['missing']}"
                 v("ledger", f"attempt {a['conn']} of peer {a['peer']}: {what}", i)
         # --- quiescence: nothing owed for p, no open connection with p => Disconnected
         for p, stv in obs["st"].items():
@@ -205,6 +252,49 @@ def oracle(case, out):
         if bad:
             break
     return bad
+
+
+def facade_reports(g, t, obs, inflight_before, due, i, v):
+    """Facade level of the ledger. `Litep2pEvent::DialFailure{address, error}` and
+    `ListDialFailures{errors}` name no connection, so they are attributed here: an attempt that the
+    transport's failure event of this step concluded (its carrier left `owed`: `ev dialfail`, `ev openfail`,
+    or a dialed connection the manager rejected) is owed exactly one failure report naming what the
+    transport reported — the failed address, or the list of (address, error) pairs, WHATEVER ITS LENGTH
+    (an empty list is a report too). Every failure event the user is handed must be one that is owed (else
+    it is a duplicate or names something nobody dialed); the attributed reports then go through the same
+    per-attempt ledger as the manager-level events (`duplicate-outcome`, `ledger`: silence)."""
+    if t[0] == "ev" and len(t) > 2 and t[1] in ("dialfail", "openfail", "established"):
+        for a in g.ledger:
+            if inflight_before.get(a["conn"]) and a["carrier"] not in g.owed and not a["reports"]:
+                if t[1] == "dialfail" and len(t) > 3:
+                    due.append({"a": a, "k": "udialfail", "addr": t[3], "step": i})
+                elif t[1] == "openfail":
+                    errs = next((x[5:] for x in t[3:] if x.startswith("errs=")), "")
+                    due.append({"a": a, "k": "ulist", "addrs": [x.split("=")[0] for x in errs.split(",") if x], "step": i})
+                elif t[1] == "established" and len(t) > 4 and not any(c[0] == "accept" for c in obs["calls"]):
+                    due.append({"a": a, "k": "udialfail", "addr": t[4], "step": i})
+    for e in obs["events"]:
+        if e["k"] not in ("udialfail", "ulist"):
+            continue
+        # (a single failed address may be reported either way: DialFailure{a} or ListDialFailures{[a]} name the same thing)
+        named = [e["addr"]] if e["k"] == "udialfail" else e["addrs"]
+        hit = next((d for d in due if d["k"] == e["k"] and named == ([d["addr"]] if d["k"] == "udialfail" else d["addrs"])), None) or \
+            next((d for d in due if d["k"] != e["k"] and named == ([d["addr"]] if d["k"] == "udialfail" else d["addrs"])), None)
+        shown = e["addr"] if e["k"] == "udialfail" else "[" + ",".join(e["addrs"]) + "]"
+        if hit is None:
+            known = any(shown in (x.get("addr"), "[" + ",".join(x.get("addrs", ["?"])) + "]") for x in g.facade_done)
+            v("duplicate-outcome" if known else "unowed-report",
+              f"the user was handed a failure report {e['k']} {shown} that no concluded attempt is waiting for "
+              f"({'a second report for an attempt already reported' if known else 'nothing of that kind was dialed and failed'})", i)
+            continue
+        due.remove(hit)
+        g.facade_done.append(hit)
+        hit["a"]["reports"].append((i, e["k"]))
+        e["conn"] = hit["a"]["conn"]
+    if obs["susp"] != "y":
+        for d in due:
+            # (the per-attempt ledger below reports the silence; this names what is missing)
+            d["a"].setdefault("missing", f"{d['k']} for the failure of step {d['step']}")
 
 
 def protocol_ledger(pr, g, t, obs, prev, busy_before, nled, i, v):
@@ -232,10 +322,10 @@ def protocol_ledger(pr, g, t, obs, prev, busy_before, nled, i, v):
     for e in obs["events"]:
         if e["k"] == "est":
             pr.exp.append(("est", e["peer"], e["conn"], None, i))
-        elif e["k"] == "dialfail":
+        elif e["k"] in ("dialfail", "udialfail"):
             pr.exp.append(("df", last_peer(e["addr"]), None, [e["addr"]], i))
-        elif e["k"] == "openfail":
-            who = next((a["peer"] for a in g.ledger if a["conn"] == e["conn"]), None)
+        elif e["k"] in ("openfail", "ulist"):
+            who = next((a["peer"] for a in g.ledger if a["conn"] == e.get("conn")), None)
             pr.exp.append(("df", who, None, None, i))
     # commands the manager got to in this step, in order
     done = max(0, len(pr.queue) - obs["cmd"])
